@@ -412,6 +412,8 @@ func (w *world) expect() expectation {
 				ph = "Pending-scheduled"
 			} else if p.Spec.NodeName != "" {
 				ph = "Pending-nodeName-only"
+			} else if len(p.Status.Conditions) > 0 {
+				ph = "Pending-unschedulable-condition"
 			}
 		}
 		e.phases[ph]++
@@ -520,7 +522,7 @@ func runPodGroupCase(seed int64, index int, tier string, env *run.Env) run.CaseR
 
 	// ---- store + real reconciler
 	scheme := store.Scheme()
-	raw := crfake.NewClientBuilder().WithScheme(scheme).WithStatusSubresource(&v2alpha2.PodGroup{}).
+	raw := crfake.NewClientBuilder().WithScheme(scheme).WithObjectTracker(newTracker(scheme)).WithStatusSubresource(&v2alpha2.PodGroup{}).
 		WithIndex(&v1.Pod{}, cluster_relations.PodGroupToPodsIndexer, cluster_relations.PodGroupNameIndexerFunc).Build()
 	for _, o := range objs {
 		if err := raw.Create(ctx, o); err != nil {
@@ -548,7 +550,9 @@ func runPodGroupCase(seed int64, index int, tier string, env *run.Env) run.CaseR
 		_, err := rec.Reconcile(ctx, req)
 		cnt.inc("reconciles")
 		cnt.add("mutating_calls", mon.Mutating)
-		cnt.add("noop_patch_requests", mon.Noop)
+		cnt.add("noop_write_requests", mon.Noop)
+		cnt.add("podgroup_noop_write_requests", mon.Noop)
+		cnt.add("podgroup_mutating_calls", mon.Mutating)
 		w, rerr := readWorld(ctx, raw)
 		if rerr != nil {
 			res.Verdict, res.Note = run.Inconclusive, "harness: read world: "+rerr.Error()
@@ -580,7 +584,7 @@ func runPodGroupCase(seed int64, index int, tier string, env *run.Env) run.CaseR
 			if e.undefined == "" {
 				vs.add("podgroup-reconcile", "podgroup-reconcile-error:"+firstWords(err.Error(), 6), "%s: Reconcile failed although every input is well defined: %v", at, err)
 			}
-			if mustJSON(before) != mustJSON(w.pg) || mon.Mutating > 0 {
+			if canon(before) != canon(w.pg) || mon.Mutating > 0 {
 				vs.add("podgroup-reconcile", "podgroup-reconcile-error-partial-write", "%s: Reconcile returned %v but wrote (mutating calls %v)", at, err, mon.Log)
 			}
 			return true
@@ -620,19 +624,21 @@ func runPodGroupCase(seed int64, index int, tier string, env *run.Env) run.CaseR
 		}
 
 		// fixpoint: a second reconcile without any change must not write and must leave the object byte-identical
-		snap := mustJSON(w.pg)
+		snap := canon(w.pg)
 		mon.reset()
 		_, err2 := rec.Reconcile(ctx, req)
 		cnt.inc("reconciles")
 		cnt.inc("fixpoint_reconciles")
 		cnt.add("mutating_calls", mon.Mutating)
-		cnt.add("noop_patch_requests", mon.Noop)
+		cnt.add("noop_write_requests", mon.Noop)
+		cnt.add("podgroup_noop_write_requests", mon.Noop)
+		cnt.add("podgroup_mutating_calls", mon.Mutating)
 		after := &v2alpha2.PodGroup{}
 		_ = raw.Get(ctx, req.NamespacedName, after)
 		if err2 != nil {
 			vs.add("podgroup-fixpoint", "podgroup-fixpoint-error", "%s: second reconcile failed: %v", at, err2)
 		}
-		if mon.Mutating > 0 || mustJSON(after) != snap {
+		if mon.Mutating > 0 || canon(after) != snap {
 			sig := "podgroup-fixpoint-write"
 			if sameStatusSemantically(w.pg, after) {
 				sig = "podgroup-fixpoint-write:quantity-format-only"
@@ -667,16 +673,23 @@ func runPodGroupCase(seed int64, index int, tier string, env *run.Env) run.CaseR
 		if err := raw.Get(ctx, client.ObjectKeyFromObject(p), cur); err != nil {
 			return err
 		}
+		want := p.DeepCopy()
 		p.ResourceVersion = cur.ResourceVersion
-		if err := raw.Update(ctx, p); err != nil {
+		if err := raw.Update(ctx, p); err != nil { // metadata + spec (the fake keeps the old status here, as an API server does)
+			return err
+		}
+		st := want.DeepCopy()
+		st.ResourceVersion = p.ResourceVersion
+		if err := raw.Status().Update(ctx, st); err != nil {
 			return err
 		}
 		chk := &v1.Pod{}
 		if err := raw.Get(ctx, client.ObjectKeyFromObject(p), chk); err != nil {
 			return err
 		}
-		if chk.Status.Phase != p.Status.Phase || chk.Spec.NodeName != p.Spec.NodeName {
-			return fmt.Errorf("pod update did not take (phase %s vs %s)", chk.Status.Phase, p.Status.Phase)
+		if chk.Status.Phase != want.Status.Phase || chk.Spec.NodeName != want.Spec.NodeName || podScheduledTrue(chk) != podScheduledTrue(want) ||
+			chk.Annotations[annRecv] != want.Annotations[annRecv] {
+			return fmt.Errorf("pod update did not take (phase %s vs %s)", chk.Status.Phase, want.Status.Phase)
 		}
 		return nil
 	}
